@@ -13,7 +13,7 @@ import time
 VERIF = os.path.dirname(os.path.dirname(os.path.abspath(__file__)))
 REPO = os.environ.get("VERIF_REPO", "/repo")
 COQ = os.path.join(VERIF, "coq")
-WORK = os.path.join(VERIF, "work")
+WORK = os.environ.get("VERIF_WORK") or os.path.join(VERIF, "work")   # VERIF_WORK: parallel sweeps use their own scratch area
 
 GOENV = dict(os.environ)
 GOENV.update({"GOFLAGS": "-mod=mod", "GOPROXY": "off"})
@@ -391,7 +391,8 @@ class Ctx:
         ev = {"property_id": self.pid, "tier": self.tier, "seed": self.seed, "level": "proof",
               "coverage": cov, "assumptions": self.assumptions,
               "wall_s": round(time.time() - self.t0, 2), "violations": len(violations) + (1 if (self.broken and not violations) else 0)}
-        json.dump(ev, open(os.path.join(VERIF, "evidence", self.pid + ".json"), "w"), indent=1)
+        if not os.environ.get("VERIF_NO_EVIDENCE"):   # seeded / refactoring sweeps must not touch the evidence of the clean tree
+            json.dump(ev, open(os.path.join(VERIF, "evidence", self.pid + ".json"), "w"), indent=1)
         self.log("obligations %d/%d, evaluations %d, hits %d (known %d), broken %d, %.1fs" % (
             dis, ob, cov["evaluations"], len(self.hits), len(seen_known), len(self.broken),
             time.time() - self.t0))
